@@ -21,9 +21,11 @@ import (
 type window struct {
 	base uint64
 	data []byte
+	acc  [][2]uint64 // every (address, size) the accessor was asked for, in order
 }
 
 func (w *window) Read(pid vm.PID, a, n uint64) []byte {
+	w.acc = append(w.acc, [2]uint64{a, n})
 	out := make([]byte, n)
 	for i := uint64(0); i < n; i++ {
 		x := a + i
@@ -35,6 +37,7 @@ func (w *window) Read(pid vm.PID, a, n uint64) []byte {
 }
 
 func (w *window) Write(pid vm.PID, a uint64, d []byte) {
+	w.acc = append(w.acc, [2]uint64{a, uint64(len(d))})
 	for i, b := range d {
 		x := a + uint64(i)
 		if x < w.base || x-w.base >= uint64(len(w.data)) {
@@ -64,12 +67,14 @@ type FlatCase struct {
 	MemI   []int       `json:"mem"`
 	Perm   []int       `json:"perm"`  // order in which read responses are delivered
 	Class  string      `json:"class"` // generator class
+	Kind   string      `json:"kind"`  // address layout chosen by the generator (informational)
 
 	// observations
 	Mode    bool       `json:"mode"` // Addr.RegCount == 1
 	Off0    uint32     `json:"off0"`
 	Addrs   []uint64   `json:"addrs"` // effective address per lane (harness arithmetic, for the monitor)
 	EmuOK   bool       `json:"emu_ok"`
+	EmuAcc  [][2]uint64 `json:"emu_acc"` // (address, size) of every storage access the real emulator ALU made
 	Emu     []uint64   `json:"emu"` // loads: v[dst..dst+3] x 64 ; stores: window bytes
 	TxnOK   bool       `json:"txn_ok"`
 	Txns    []FlatTxn  `json:"txns"`
@@ -153,6 +158,7 @@ func (c *FlatCase) runEmu(inst *insts.Inst) {
 	}
 	wf.SetEXEC(c.Exec)
 	emu.VerifSetInst(wf, inst)
+	defer func() { c.EmuAcc = w.acc }()
 	alu.Run(wf)
 	c.EmuOK = true
 	if isLoad(c.Op) {
@@ -283,7 +289,7 @@ func (c *FlatCase) run() {
 	for i, x := range c.MemI {
 		c.Mem[i] = byte(x)
 	}
-	c.Emu, c.Txns, c.TReg, c.WReqs, c.TMem, c.Addrs = nil, nil, nil, nil, nil, nil
+	c.Emu, c.Txns, c.TReg, c.WReqs, c.TMem, c.Addrs, c.EmuAcc = nil, nil, nil, nil, nil, nil, nil
 	c.EmuErr, c.TimErr = "", ""
 	inst := c.decode()
 	c.Mode = inst.Addr.RegCount == 1
@@ -306,10 +312,7 @@ func coqOpt(ok bool, s string) string {
 func (c *FlatCase) coq() string {
 	va := make([]uint64, 64)
 	for l := range va {
-		va[l] = c.VAddr[l]
-		if c.Mode {
-			va[l] &= 0xFFFFFFFF
-		}
+		va[l] = c.VAddr[l] // both registers of the pair; the model decides which it reads
 	}
 	data := make([]string, 64)
 	for l := range data {
@@ -335,8 +338,8 @@ func (c *FlatCase) coq() string {
 		}
 		wreqs[i] = fmt.Sprintf("(%d, %s, %s)", r.Line, vh.CoqNList(d), vh.CoqBools(r.Mask))
 	}
-	return fmt.Sprintf("mkFCase %d %d %d %s %d %d %s %d %s %d %s %s %s %s %s",
-		c.Lg, c.Op, c.Exec, vh.CoqBool(c.Mode), c.SBase, c.Off0, vh.CoqNList(va), c.DstV,
+	return fmt.Sprintf("mkFCase %d %d %d %s %s %d %d %d %d %s %d %s %d %s %s %s %s %s",
+		c.Lg, c.Op, c.Exec, vh.CoqBool(c.Mode), vh.CoqBool(c.CDNA3), c.SAddr, c.SBase, uint32(c.Off13)&0x1FFF, c.Off0, vh.CoqNList(va), c.DstV,
 		"["+strings.Join(data, "; ")+"]", c.Base, vh.CoqBytes(c.Mem),
 		coqOpt(c.EmuOK, vh.CoqNList(c.Emu)),
 		coqOpt(c.TxnOK, vh.CoqList(txns)),
@@ -367,6 +370,11 @@ func genFlat(rng *vh.Rng, class string, op int) FlatCase {
 	ls := uint64(1) << c.Lg
 	rc := uint64(regCount(op))
 	c.Base = 0x200000000 + uint64(rng.Intn(1<<16))*128
+	if rng.Intn(3) == 0 {
+		// the window ends at, begins at, or lies across a 4 GiB boundary
+		c.Base = uint64(2+rng.Intn(6))<<32 - uint64(rng.Intn(7))*128
+	}
+	kind := rng.Intn(6) // see "address layout" below
 	size := 768
 	c.MemI = make([]int, size)
 	for i := range c.MemI {
@@ -399,7 +407,20 @@ func genFlat(rng *vh.Rng, class string, op int) FlatCase {
 	default:
 		c.SAddr = 2 * (1 + rng.Intn(20))
 	}
-	c.Off13 = []int{0, 0, 4, 64, -4, -64, 4092, -4096, 1, -1, 100}[rng.Intn(11)]
+	c.Off13 = []int{0, 0, 4, 64, -4, -64, 4092, -4096, 1, -1, 100, 4095, -2048, -100, -256}[rng.Intn(15)]
+	// forced witnesses of the SAddr-mode corner: classes "saddr-neg[-cdna3]", "saddr-ovf[-cdna3]"
+	if strings.HasPrefix(class, "saddr-") {
+		c.CDNA3 = strings.HasSuffix(class, "-cdna3")
+		c.SAddr = 2 * (1 + rng.Intn(20))
+		c.Exec = ^uint64(0)
+		if strings.HasPrefix(class, "saddr-neg") {
+			kind = 1
+			c.Off13 = -[]int{4, 64, 100, 2048, 4096}[rng.Intn(5)]
+		} else {
+			kind = 3
+			c.Off13 = []int{8, 64, 100, 4092, 4095}[rng.Intn(5)]
+		}
+	}
 	// targets inside [base+64, base+size-64)
 	lo, span := uint64(64), uint64(size-128-16)
 	pattern := rng.Intn(6)
@@ -459,16 +480,62 @@ func genFlat(rng *vh.Rng, class string, op int) FlatCase {
 		straddler = rng.Intn(64)
 		c.Exec |= uint64(1) << uint(straddler)
 	}
-	c.SBase = c.Base - 4096 - uint64(rng.Intn(64))*4
 	// what the decoder will decide
 	mode := c.SAddr != 0x7F && (c.CDNA3 || c.SAddr != 0)
+	// absolute target address per lane
+	ts := make([]uint64, 64)
+	tmin, tmax := ^uint64(0), uint64(0)
 	for l := 0; l < 64; l++ {
 		t := c.Base + target(l)
 		if l == straddler {
 			// last dword of the access begins 1..3 bytes before the end of a line
 			t = (c.Base+lo+uint64(rng.Intn(4))*ls+ls)&^(ls-1) - uint64(1+rng.Intn(3)) - 4*uint64(rng.Intn(int(rc)))
 		}
-		v := t - uint64(int64(c.Off13))
+		ts[l] = t
+		if t < tmin {
+			tmin = t
+		}
+		if t > tmax {
+			tmax = t
+		}
+	}
+	// Address layout.  target = sbase + zext32(v) + sext(imm) (SAddr mode) must hold
+	// with 0 <= v < 2^32, i.e. tmax - imm - (2^32-1) <= sbase <= tmin - imm.
+	//   far    : sbase 4 KiB or more below the window, every v well above |imm|
+	//   negimm : negative immediate, sbase inside / above the window so that the
+	//            lanes whose target lies below sbase have v < |imm| (v + imm < 0)
+	//   vhigh  : v within a few hundred bytes of 2^32 (v + imm may exceed 32 bits)
+	//   edge   : sbase at the lowest / highest value the 32-bit offset allows
+	c.Kind = "far"
+	c.SBase = c.Base - 4096 - uint64(rng.Intn(64))*4
+	if mode && kind != 0 {
+		imm := int64(c.Off13)
+		switch kind {
+		case 1, 2:
+			c.Kind = "negimm"
+			if imm >= 0 {
+				imm = -int64([]int{1, 4, 60, 64, 100, 256, 2048, 4095, 4096}[rng.Intn(9)])
+				c.Off13 = int(imm)
+			}
+			// sbase = tmin + |imm| - delta, 0 <= delta <= |imm|: lanes with target < sbase have v < |imm|
+			c.SBase = tmin + uint64(-imm) - uint64(rng.Intn(int(-imm)+1))
+			if rng.Intn(3) == 0 || strings.HasPrefix(class, "saddr-") {
+				c.SBase = tmin + uint64(-imm) // the lowest lane has v = 0
+			}
+		case 3:
+			c.Kind = "vhigh"
+			c.SBase = tmax - uint64(imm) - (1<<32 - 1) + uint64(rng.Intn(8))
+		default:
+			c.Kind = "edge"
+			if rng.Bool() {
+				c.SBase = tmin - uint64(imm)
+			} else {
+				c.SBase = tmax - uint64(imm) - (1<<32 - 1)
+			}
+		}
+	}
+	for l := 0; l < 64; l++ {
+		v := ts[l] - uint64(int64(c.Off13))
 		if mode {
 			v = (v - c.SBase) & 0xFFFFFFFF
 			if rng.Intn(4) == 0 {
@@ -515,6 +582,14 @@ func flatMain(seed uint64, n int, out, rep string) {
 		// the main stream: one witness per dword opcode
 		for _, op := range []int{20, 21, 23, 28, 29, 31} {
 			cases = append(cases, genFlat(rng.Fork(), "straddle", op))
+		}
+		// SAddr mode, VGPR offset + immediate outside [0, 2^32) for at least one active lane
+		// (negative immediate beyond the offset; positive immediate past 2^32): every
+		// opcode both modes implement, both architectures
+		for _, cl := range []string{"saddr-neg", "saddr-neg-cdna3", "saddr-ovf", "saddr-ovf-cdna3"} {
+			for _, op := range flatOps {
+				cases = append(cases, genFlat(rng.Fork(), cl, op))
+			}
 		}
 	}
 	writeOut(out, cases)
